@@ -991,7 +991,8 @@ func recvCh[T any](
 
 func (broker *Broker) handleSendError(payload sts.Payload, nPartsReceived int) sts.Payload {
 	nErr := 0
-	var n int
+	// Start from the count the server sent along with its answer (if any)
+	n := nPartsReceived
 	var err error
 	for {
 		if broker.shouldStopNow() {
